@@ -724,7 +724,7 @@ def make_site(P, op, order, c, inplace=False, ctx="value", shape="obj", shift_ma
     cv = model_value(c)
     fam = select(P, op, order, ckind, cv[1], shift_max=shift_max)
     return {"op": op, "order": order, "ckind": ckind, "c": repr(c), "cv": cv, "inplace": inplace, "ctx": ctx,
-            "shape": shape, "family": fam}
+            "shape": shape, "family": fam, "cpy": c}
 
 
 def site_desc(site):
@@ -775,8 +775,7 @@ def real_sites(tier):
         for op in ("Rshift", "Lshift"):
             sites.append(make_site(P, op, "ObjC", c))
             sites.append(make_site(P, op, "ObjC", c, inplace=True))
-    for op in ("Rshift", "Lshift"):
-        sites.append(make_site(P, op, "CObj", 3))
+    # (c << x and c >> x are not optimised and not bounded stimuli: not generated)
     for c in fc:
         for op in ("Add", "Subtract", "Multiply", "TrueDivide", "Remainder", "FloorDivide"):
             sites.append(make_site(P, op, "ObjC", c))
@@ -976,7 +975,7 @@ def canon(obs):
 def py_eval(site, x):
     """P: what CPython computes for the site's expression (run in the harness process)"""
     import operator
-    c = eval(site["c"])
+    c = site["cpy"]
     op = site["op"]
     name = {"Add": "add", "Subtract": "sub", "Multiply": "mul", "Remainder": "mod", "TrueDivide": "truediv", "FloorDivide": "floordiv",
             "Or": "or_", "Xor": "xor", "And": "and_", "Rshift": "rshift", "Lshift": "lshift", "Eq": "eq", "Ne": "ne"}[op]
